@@ -112,12 +112,14 @@ class Env:
         fcntl.ioctl(self.slave, termios.FIONREAD, buf)
         return buf[0]
 
-    def pump(self):
+    def pump(self, wait=True):
         while self.unfed and self.inflight < CAP:
             n = min(len(self.unfed), CAP - self.inflight)
             w = os.write(self.master, self.unfed[:n])
             self.unfed = self.unfed[w:]
             self.inflight += w
+        if not wait:
+            return
         t = real_time.time()
         while self.fionread() != self.inflight:
             if real_time.time() - t > 5:
@@ -315,7 +317,8 @@ def drive(inp):
     a = termios.tcgetattr(slave)
     a[0] &= ~(termios.ICRNL | termios.INLCR | termios.IGNCR | termios.IXON | termios.IXOFF | termios.ISTRIP
               | termios.INPCK | termios.IGNBRK | termios.BRKINT | termios.PARMRK)
-    a[3] &= ~(termios.ISIG | termios.ECHO | termios.IEXTEN)
+    a[3] &= ~(termios.ISIG | termios.ECHO | termios.IEXTEN | termios.ICANON)   # no line editing of what is typed ahead
+    a[6][termios.VMIN], a[6][termios.VTIME] = 1, 0
     termios.tcsetattr(slave, termios.TCSANOW, a)
     stream = os.fdopen(slave, "r", closefd=False)
     env = Env(inp)
@@ -331,9 +334,19 @@ def drive(inp):
         ci.select = Proxy(real_select_mod, select=env.select)
         ci.os = Proxy(os, read=env.os_read, write=env.os_write, pipe=env.os_pipe)
         ci.getpreferredencoding = lambda: ENC[inp["enc"]]
+        # bytes that are already waiting in the tty when the context is ENTERED (type-ahead) are input like any other:
+        # the first `early` arrivals of the history happen before __enter__
+        early = 0
+        while early < inp.get("early", 0) and early < len(inp["hist"]) and inp["hist"][early][0] == "env" \
+                and inp["hist"][early][1][0] == "arrive":
+            env.unfed += bytes(inp["hist"][early][1][1])
+            env.pump(wait=False)
+            early += 1
         with ci.Input(in_stream=stream, keynames=inp["mode"], paste_threshold=inp["paste"],
-                      sigint_event=True) as I:
+                      sigint_event=True, disable_terminal_start_stop=bool(inp.get("dtss"))) as I:
             env.inp = I
+            if early:
+                env.pump()          # in cbreak mode now: everything typed ahead must be readable
             env.ev_cbs = [I.event_trigger(Ev) for _ in range(max(1, inp.get("nev", 1)))]
             env.sched_cb = I.scheduled_event_trigger(SEv)
             env.ts_cbs = []
@@ -341,7 +354,9 @@ def drive(inp):
             for _ in range(inp["ntrig"]):
                 env.ts_cbs.append(I.threadsafe_event_trigger(Ev))
                 env.ts_wfds.append(env.pipes_made[-1][1])       # the write end of the pipe it just made
-            for item in inp["hist"]:
+            for idx, item in enumerate(inp["hist"]):
+                if idx < early:
+                    continue
                 if item[0] == "env":
                     env.perform(item[1])
                     continue
@@ -781,8 +796,17 @@ class _Gen:
         self.hist.append(["env", ["tick", 50]])
         for _ in range(min(drain_cap, self.pend + 3)):
             self.hist.append(["req", 0, []])
+        early = 0
+        if rng.random() < 0.35:
+            if not (self.hist and self.hist[0][0] == "env" and self.hist[0][1][0] == "arrive") and rng.random() < 0.6:
+                toks = _stream(rng, self.enc, rng.choice([1, 2, 4]), None)
+                self.hist.insert(0, ["env", ["arrive", list(b"".join(toks) + FILLER)]])   # FILLER: see _stream
+                self.hist.append(["req", 0, []])
+                self.hist.append(["req", 0, []])
+            while early < len(self.hist) and self.hist[early][0] == "env" and self.hist[early][1][0] == "arrive":
+                early += 1
         return {"enc": self.enc, "mode": self.mode, "paste": self.paste, "ntrig": self.ntrig, "nev": self.nev,
-                "threaded": self.threaded, "hist": self.hist}
+                "threaded": self.threaded, "hist": self.hist, "early": early, "dtss": rng.random() < 0.4}
 
 
 def _burst_case(rng, size):
